@@ -14,7 +14,7 @@ from pyvc.contract import Contract, LoopSpec
 from pyvc.values import Builtin, ClassVal, DictVal, ExcVal, ListVal, Obj, Opaque, SeqVal, Sym, SymList, TupleVal, Unsupported
 
 from .common import *  # noqa
-from .c08_taxscales import ScaleWorld, MR, LA, RL, part
+from .c08_taxscales import ScaleWorld, MR, LA, RL, part, in_bracket, below_first, fresh_fn, State, state_of, positional_facts
 
 TL = "openfisca_core.taxscales.tax_scale_like.TaxScaleLike"
 
@@ -214,6 +214,505 @@ class MultiplyThresholds(Contract):
         return res
 
 
+class Copy(Contract):
+    name = f"{TL}.copy"
+    prop = ("C09",)
+    top_level = True
+    descr = ("copy gives a new scale of the same class with its own threshold and rate lists holding the same numbers (so it taxes "
+             "every base identically, by C08's calc contract), and leaves the operand unchanged")
+
+    def setup(self, I, ctx, case):
+        w = ScaleWorld(I, ctx, MR, min_brackets=0)
+        return {"self": w.scale, "__w": w}
+
+    def post(self, I, ctx, a, out, old):
+        w = a["__w"]
+        if out[0] != "return" or not isinstance(out[1], Obj):
+            return [("returns-a-scale", False)]
+        r = out[1]
+        q = ctx.fresh_int("q")
+        return [("a-new-scale-with-its-own-lists", is_new_scale(I, r, w)),
+                ("same-thresholds", same_list(I, ctx, r.fields["thresholds"], w.n, w.T, q)),
+                ("same-rates", same_list(I, ctx, r.fields["rates"], w.n, w.R, q)),
+                ("same-name-option-unit", all(r.fields.get(k) == w.scale.fields.get(k) for k in ("name", "option", "unit")))] + unchanged(I, ctx, w)
+
+
+class ScaleTaxScales(Contract):
+    name = f"{MR}.scale_tax_scales"
+    prop = ("C09",)
+    top_level = True
+    descr = ("scale_tax_scales gives a new scale whose thresholds are the operand's times the factor, with the operand's rates: "
+             "every summand of calc on the scaled base is the scaled summand; the operand is unchanged")
+    inline = (f"{TL}.copy",)
+
+    def setup(self, I, ctx, case):
+        w = ScaleWorld(I, ctx, MR, min_brackets=0)
+        ctx.ghost["sw"] = w
+        f = ctx.fresh_real("factor")
+        ctx.assume(f > 0)
+        ctx.ghost["f"] = f
+        return {"self": w.scale, "factor": Sym(f), "__w": w, "__f": f}
+
+    @staticmethod
+    def local_contracts():
+        return {MultiplyThresholds.name: MultiplyThresholdsSite()}
+
+    def post(self, I, ctx, a, out, old):
+        w, f = a["__w"], a["__f"]
+        if out[0] != "return" or not isinstance(out[1], Obj):
+            return [("returns-a-scale", False)]
+        r = out[1]
+        q, b = ctx.fresh_int("q"), ctx.fresh_real("b")
+        return [("a-new-scale-with-its-own-lists", is_new_scale(I, r, w)),
+                ("every-threshold-is-multiplied-by-the-factor", same_list(I, ctx, r.fields["thresholds"], w.n, lambda x: w.T(x) * f, q)),
+                ("rates-are-the-operand's", same_list(I, ctx, r.fields["rates"], w.n, w.R, q))] + \
+            scaled_summand_clause(I, ctx, w, r, f, q, b) + unchanged(I, ctx, w)
+
+
+class MultiplyThresholdsSite(Contract):
+    """call-site form of MultiplyThresholds (in place, no rounding): what the verified contract above ensures"""
+    name = f"{RL}.multiply_thresholds"
+    prop = ()
+
+    def requires(self, I, ctx, a):
+        return [("in-place-without-rounding", a.get("decimals") is None and a.get("inplace", True) is True and a.get("new_name") is None)]
+
+    def outcomes(self, I, ctx, a, old):
+        s = a["self"]
+        th = s.fields["thresholds"]
+        cur = I.as_seq(ctx, th)
+        f = B.zreal(a["factor"])
+        new = SeqVal(cur.length, lambda q, cur=cur: Sym(el(cur, q) * f), "thresholds*factor")
+        if isinstance(th, SymList):
+            th.seq = new
+        else:
+            s.fields["thresholds"] = SymList(new)
+        return ("return", s)
+
+    def post(self, I, ctx, a, out, old):
+        return []
+
+
+class AddBracketSite(Contract):
+    """call-site form of add_bracket: requires a well-formed scale; ensures AddBracketPositional's facts on fresh lists"""
+    name = f"{RL}.add_bracket"
+    prop = ()
+
+    def outcomes(self, I, ctx, a, old):
+        s = a["self"]
+        before, nr = state_of(I, ctx, s)
+        t, r = B.zreal(a["threshold"]), B.zreal(a["rate"])
+        q1, q2 = z3.Int(ctx.fresh_name("wf1")), z3.Int(ctx.fresh_name("wf2"))
+        ctx.oblige("add_bracket.requires.thresholds-strictly-increasing",
+                   z3.ForAll([q1, q2], z3.Implies(z3.And(0 <= q1, q1 < q2, q2 < before.n), before.T(q1) < before.T(q2))), kind="requires")
+        ctx.oblige("add_bracket.requires.as-many-rates-as-thresholds", nr == before.n, kind="requires")
+        e = z3.Int(ctx.fresh_name("e"))
+        present = ctx.branch(z3.Exists([e], z3.And(e >= 0, e < before.n, before.T(e) == t)))
+        p = ctx.fresh_int("pos")
+        TN, RN = fresh_fn(ctx, "T_after"), fresh_fn(ctx, "R_after")
+        n_after = before.n if present else before.n + 1
+        after = State(TN, RN, smt.simp(n_after))
+        q = z3.Int(ctx.fresh_name("q_ab"))
+        facts = positional_facts(before, after, p, present, t, r, q)
+        for f in facts:
+            ctx.assume(z3.ForAll([q], f) if _mentions(f, q) else f)
+        for key, F in (("thresholds", TN), ("rates", RN)):
+            lst = s.fields[key]
+            new = SeqVal(after.n, lambda x, F=F: Sym(F(B._z(x))), key + "_after")
+            if isinstance(lst, SymList):
+                lst.seq = new
+            else:
+                s.fields[key] = SymList(new)
+        ctx.ghost.setdefault("add_bracket_calls", []).append({"before": before, "after": after, "p": p, "present": present, "t": t, "r": r})
+        return ("return", None)
+
+    def post(self, I, ctx, a, out, old):
+        return []
+
+
+def _mentions(f, v):
+    seen, work = set(), [f]
+    while work:
+        x = work.pop()
+        if x.get_id() in seen:
+            continue
+        seen.add(x.get_id())
+        if z3.is_const(x) and x.decl().kind() == z3.Z3_OP_UNINTERPRETED and x.eq(v):
+            return True
+        work.extend(x.children())
+    return False
+
+
+def rho_at(S, x, v, k):
+    """v is the marginal rate of scale S at the point x (k: the bracket containing x, if any)"""
+    return z3.If(below_first(S.T, S.n, x), v == 0, z3.And(in_bracket(S.T, S.n, x, k), v == S.R(k)))
+
+
+class Rho:
+    """ghost: the marginal-rate function x -> rate of a well-formed scale state, introduced by its definition
+    rho_at(S, x, RHO(x), K(x)) for all x (a definitional extension: C08's lemma bracket.count... shows every point at or
+    above the first threshold lies in a bracket, and strictly increasing thresholds make it unique)"""
+
+    def __init__(self, ctx, S, tag):
+        self.S = S
+        self.f = z3.Function(ctx.fresh_name("RHO_" + tag), z3.RealSort(), z3.RealSort())
+        self.k = z3.Function(ctx.fresh_name("K_" + tag), z3.RealSort(), z3.IntSort())
+        x = z3.Real(ctx.fresh_name("x_def"))
+        ctx.assume(z3.ForAll([x], rho_at(S, x, self.f(x), self.k(x)), patterns=[self.f(x)]))
+
+
+def well_formed(ctx, S, nr=None):
+    q1, q2 = z3.Int(ctx.fresh_name("wf1")), z3.Int(ctx.fresh_name("wf2"))
+    t1, t2 = S.T(q1), S.T(q2)
+    simple = all(z3.is_app(t) and t.decl().kind() == z3.Z3_OP_UNINTERPRETED for t in (t1, t2))
+    f = z3.ForAll([q1, q2], z3.Implies(z3.And(0 <= q1, q1 < q2, q2 < S.n), t1 < t2), **({"patterns": [z3.MultiPattern(t1, t2)]} if simple else {}))
+    return z3.And(f, S.n >= 0, nr == S.n) if nr is not None else z3.And(f, S.n >= 0)
+
+
+def replace_lists(ctx, scale, n, tag):
+    TN, RN = fresh_fn(ctx, "T_" + tag), fresh_fn(ctx, "R_" + tag)
+    for key, F in (("thresholds", TN), ("rates", RN)):
+        lst = scale.fields[key]
+        new = SeqVal(n, lambda x, F=F: Sym(F(B._z(x))), key + "_" + tag)
+        if isinstance(lst, SymList):
+            lst.seq = new
+        else:
+            scale.fields[key] = SymList(new)
+    return State(TN, RN, n)
+
+
+class CombineBracketSite(Contract):
+    """call-site form of CombineBracket: requires a well-formed scale and high > low, high != 0; ensures a well-formed scale
+    whose marginal-rate function is the previous one plus `rate` on [low, high)"""
+    name = f"{MR}.combine_bracket"
+    prop = ()
+
+    def outcomes(self, I, ctx, a, old):
+        s = a["self"]
+        before, nr = state_of(I, ctx, s)
+        rho = ctx.ghost.get("rho", {}).get(id(s))
+        ctx.oblige("combine_bracket.requires.well-formed-scale", well_formed(ctx, before, nr), kind="requires")
+        rate, lo = B.zreal(a["rate"]), B.zreal(a.get("threshold_low", 0))
+        hi = a.get("threshold_high", False)
+        if hi is not False:
+            hi = B.zreal(hi)
+            ctx.oblige("combine_bracket.requires.high-above-low-and-not-zero", z3.And(hi > lo, hi != 0), kind="requires")
+        if rho is None:
+            rho = Rho(ctx, before, "before")
+        n_after = ctx.fresh_int("n_after")
+        after = replace_lists(ctx, s, n_after, "combined")
+        ctx.assume(well_formed(ctx, after))
+        rho2 = Rho(ctx, after, "after")
+        x = z3.Real(ctx.fresh_name("x_cb"))
+        inside = z3.And(lo <= x, x < hi) if hi is not False else lo <= x
+        ctx.assume(z3.ForAll([x], rho2.f(x) == rho.f(x) + z3.If(inside, rate, 0), patterns=[rho2.f(x)]))
+        ctx.ghost.setdefault("rho", {})[id(s)] = rho2
+        return ("return", None)
+
+    def post(self, I, ctx, a, out, old):
+        return []
+
+
+class AddTaxScale(Contract):
+    name = f"{MR}.add_tax_scale"
+    prop = ("C09",)
+    top_level = True
+    cases = ("non-empty", "empty")
+    descr = ("add_tax_scale makes the marginal rate of the receiving scale, at every point, the sum of its previous marginal rate "
+             "and the added scale's (so the tax on any base, the integral of the marginal rate, is the sum of the two taxes); the "
+             "scale stays well formed and the added scale is unchanged")
+
+    def setup(self, I, ctx, case):
+        w = ScaleWorld(I, ctx, MR, min_brackets=0)
+        o = ScaleWorld(I, ctx, MR, min_brackets=1 if case == "non-empty" else 0)
+        if case == "empty":
+            ctx.assume(o.n == 0)
+        else:
+            ctx.assume(o.T(0) >= 0)        # the statement's scales have non-negative thresholds (a zero upper threshold reads as "no upper bound")
+        ctx.ghost["sw"], ctx.ghost["so"] = w, o
+        S0, SO = State(w.T, w.R, w.n), State(o.T, o.R, o.n)
+        rho0, rhoo = Rho(ctx, S0, "self"), Rho(ctx, SO, "other")
+        ctx.ghost["rho"] = {id(w.scale): rho0}
+        ctx.ghost["rho0"], ctx.ghost["rhoo"] = rho0, rhoo
+        return {"self": w.scale, "tax_scale": o.scale, "__w": w, "__o": o}
+
+    @staticmethod
+    def local_contracts():
+        return {CombineBracketSite.name: CombineBracketSite()}
+
+    def _inv(self, ctx, I, vars):
+        w, o = ctx.ghost["sw"], ctx.ghost["so"]
+        m = B._z(vars["__k0"])
+        s = vars["self"]
+        cur, nr = state_of(I, ctx, s)
+        rho, rho0, rhoo = ctx.ghost["rho"][id(s)], ctx.ghost["rho0"], ctx.ghost["rhoo"]
+        x = z3.Real(ctx.fresh_name("x_inv"))
+        return [("receiver-stays-well-formed", well_formed(ctx, cur, nr)),
+                ("brackets-done-so-far-are-added",
+                 z3.ForAll([x], rho.f(x) == rho0.f(x) + z3.If(z3.And(o.T(0) <= x, x < o.T(m)), rhoo.f(x), 0), patterns=[rho.f(x)]))]
+
+    def _havoc(self, ctx, I, vars):
+        s = vars["self"]
+        n = ctx.fresh_int("n_h")
+        cur = replace_lists(ctx, s, n, "h")
+        ctx.ghost["rho"][id(s)] = Rho(ctx, cur, "h")
+        for v in ("threshold_low", "threshold_high", "rate"):
+            vars[v] = Sym(ctx.fresh_real("hv_" + v))
+
+    @property
+    def loops(self):
+        ls = LoopSpec(self._inv, self._havoc)
+        ls.heap_frame = ("self.thresholds", "self.rates")
+        return {0: ls}
+
+    def post(self, I, ctx, a, out, old):
+        w, o = a["__w"], a["__o"]
+        if out[0] != "return":
+            return [("no-exception", False)]
+        fin, nr = state_of(I, ctx, w.scale)
+        rho, rho0, rhoo = ctx.ghost["rho"][id(w.scale)], ctx.ghost["rho0"], ctx.ghost["rhoo"]
+        x = ctx.fresh_real("x")
+        return [("receiver-stays-well-formed", well_formed(ctx, fin, nr)),
+                ("marginal-rate-everywhere-is-the-sum-of-the-two-marginal-rates", rho.f(x) == rho0.f(x) + rhoo.f(x))] + \
+            unchanged(I, ctx, o, scale=o.scale)
+
+    def probes(self, case):
+        S = [([0.0, 10.0, 20.0], [0.1, 0.2, 0.4]), ([0.0], [0.3]), ([0.0, 5.0], [0.0, 0.5]), ([10.0], [0.1]), ([100.0, 200.0], [0.1, 0.2]), ([], [])]
+        return [{"callee": self.name, "script": NATIVE, "op": "add_tax_scale", "thresholds": t, "rates": r, "thresholds2": t2, "rates2": r2}
+                for t, r in S for t2, r2 in (S if case == "non-empty" else [([], [])]) if case == "empty" or t2]
+
+    def judge_native(self, I, case, call, nat):
+        return judge(nat)
+
+
+class Inverse(Contract):
+    name = f"{MR}.inverse"
+    prop = ("C09",)
+    top_level = True
+    descr = ("inverse of a scale starting at 0 with rates below 1: a new scale whose k-th threshold is the net amount at the k-th "
+             "gross threshold (T(k) - tax(T(k))) and whose k-th rate is 1/(1 - rate k); then gross bracket k maps onto net bracket "
+             "k, and the summands of calc of the inverse at the net amount are the gross bracket widths below the gross amount "
+             "(which telescope to the gross amount: lemma); the operand is unchanged")
+
+    def setup(self, I, ctx, case):
+        w = ScaleWorld(I, ctx, MR, min_brackets=1)
+        ctx.ghost["sw"] = w
+        q = z3.Int("q_pre")
+        ctx.assume(w.T(0) == 0)
+        ctx.assume(z3.ForAll([q], z3.Implies(z3.And(q >= 0, q < w.n), w.R(q) < 1), patterns=[w.R(q)]))
+        # ghost: A(k) = tax at the k-th threshold = sum_{q<k} R(q) (T(q+1) - T(q)), unfolded one step at a time where needed
+        w.A = z3.Function(ctx.fresh_name("TAX_AT_T"), z3.IntSort(), z3.RealSort())
+        ctx.assume(w.A(0) == 0)
+        return {"self": w.scale, "__w": w}
+
+    @staticmethod
+    def unfold(ctx, w, k):
+        ctx.assume(z3.Implies(k >= 0, w.A(k + 1) == w.A(k) + w.R(k) * (w.T(k + 1) - w.T(k))))
+
+    @staticmethod
+    def local_contracts():
+        return {AddBracketSite.name: AddBracketSite()}
+
+    def _inv(self, ctx, I, vars):
+        w = ctx.ghost["sw"]
+        m = B._z(vars["__k0"])
+        inv = vars["inverse"]
+        cur, nr = state_of(I, ctx, inv)
+        q = z3.Int(ctx.fresh_name("q_inv"))
+        res = [("one-net-bracket-per-gross-bracket-done", z3.And(cur.n == m, nr == m)),
+               ("net-thresholds-are-gross-thresholds-minus-the-tax-there", z3.ForAll([q], z3.Implies(z3.And(q >= 0, q < m), cur.T(q) == w.T(q) - w.A(q)))),
+               ("net-rates-are-the-inverse-rates", z3.ForAll([q], z3.Implies(z3.And(q >= 0, q < m), cur.R(q) * (1 - w.R(q)) == 1))),
+               ("net-thresholds-strictly-increasing", well_formed(ctx, cur))]
+        if "previous_rate" in vars and "theta" in vars:
+            res.append(("running-rate-and-intercept", z3.Implies(m >= 1, z3.And(B.zreal(vars["previous_rate"]) == w.R(m - 1),
+                                                                               B.zreal(vars["theta"]) == w.R(m - 1) * w.T(m - 1) - w.A(m - 1)))))
+        res.append(("a-new-scale-is-being-filled", inv is not w.scale and inv.fields["thresholds"] is not w.thresholds and inv.fields["rates"] is not w.values))
+        return res
+
+    def _havoc(self, ctx, I, vars):
+        w = ctx.ghost["sw"]
+        m = B._z(vars["__k0"])
+        Inverse.unfold(ctx, w, m - 1)
+        Inverse.unfold(ctx, w, m)
+        replace_lists(ctx, vars["inverse"], m, "inv_h")
+        for v in ("previous_rate", "theta", "net_threshold", "threshold", "rate"):
+            vars[v] = Sym(ctx.fresh_real("hv_" + v))
+
+    @property
+    def loops(self):
+        ls = LoopSpec(self._inv, self._havoc)
+        ls.heap_frame = ("inverse.thresholds", "inverse.rates")
+        return {0: ls}
+
+    def post(self, I, ctx, a, out, old):
+        w = a["__w"]
+        if out[0] != "return" or not isinstance(out[1], Obj):
+            return [("returns-a-scale", False)]
+        r = out[1]
+        inv, nr = state_of(I, ctx, r)
+        q, k = ctx.fresh_int("q"), ctx.fresh_int("k")
+        b = ctx.fresh_real("gross")
+        Inverse.unfold(ctx, w, q)
+        Inverse.unfold(ctx, w, k)
+        net = b - w.A(k) - w.R(k) * (b - w.T(k))
+        in_gross = z3.And(k >= 0, k < w.n, w.T(k) <= b, z3.Or(k + 1 >= w.n, b < w.T(k + 1)))
+        res = [("a-new-scale-with-its-own-lists", is_new_scale(I, r, w)),
+               ("one-net-bracket-per-gross-bracket", z3.And(inv.n == w.n, nr == w.n)),
+               ("net-threshold-k-is-the-net-amount-at-gross-threshold-k", z3.Implies(z3.And(q >= 0, q < w.n), inv.T(q) == w.T(q) - w.A(q))),
+               ("net-rate-k-is-one-over-one-minus-rate-k", z3.Implies(z3.And(q >= 0, q < w.n), inv.R(q) * (1 - w.R(q)) == 1)),
+               ("net-bracket-width-is-the-gross-width-times-one-minus-the-rate",
+                z3.Implies(z3.And(q >= 0, q + 1 < w.n), inv.T(q + 1) - inv.T(q) == (1 - w.R(q)) * (w.T(q + 1) - w.T(q)))),
+               ("a-gross-amount-in-bracket-k-has-its-net-amount-in-net-bracket-k",
+                z3.Implies(in_gross, z3.And(inv.T(k) <= net, z3.Or(k + 1 >= w.n, net < inv.T(k + 1))))),
+               ("summand-of-a-full-net-bracket-is-the-gross-bracket-width",
+                z3.Implies(z3.And(q >= 0, q + 1 < w.n), inv.R(q) * (inv.T(q + 1) - inv.T(q)) == w.T(q + 1) - w.T(q))),
+               ("summand-of-the-last-net-bracket-reached-is-the-gross-amount-above-its-threshold",
+                z3.Implies(in_gross, inv.R(k) * (net - inv.T(k)) == b - w.T(k)))]
+        return res + unchanged(I, ctx, w)
+
+    def probes(self, case):
+        return [{"callee": self.name, "script": NATIVE, "op": "inverse", "thresholds": t, "rates": r}
+                for t, r in (([0.0], [0.3]), ([0.0, 10.0, 20.0], [0.1, 0.2, 0.4]), ([0.0, 5.0], [0.0, 0.5]), ([0.0, 1.0, 2.0, 3.0], [0.5, 0.25, 0.0, 0.75]))]
+
+    def judge_native(self, I, case, call, nat):
+        return judge(nat)
+
+
+def next_k(k, p, t, x):
+    """the bracket containing x after a threshold t was inserted at position p, when it was bracket k before"""
+    return z3.If(k >= p, k + 1, z3.If(z3.And(k == p - 1, x >= t), p, k))
+
+
+class CombineBracket(Contract):
+    name = f"{MR}.combine_bracket"
+    prop = ("C09",)
+    top_level = True
+    cases = ("open", "bounded")
+    descr = ("combine_bracket(rate, low, high) keeps the scale well formed and adds `rate` to the marginal rate of every point of "
+             "[low, high) (of [low, +inf) without high) and of no other point: for every x, the rate of the bracket containing x "
+             "afterwards is the rate of the bracket that contained it before (0 below the first threshold) plus rate if low <= x < high")
+
+    def setup(self, I, ctx, case):
+        w = ScaleWorld(I, ctx, MR, min_brackets=0)
+        ctx.ghost["sw"] = w
+        rate, lo = ctx.fresh_real("rate"), ctx.fresh_real("low")
+        ctx.ghost["rate"] = rate
+        a = {"self": w.scale, "rate": Sym(rate), "threshold_low": Sym(lo), "__w": w, "__rate": rate, "__lo": lo, "__hi": None}
+        if case == "bounded":
+            hi = ctx.fresh_real("high")
+            ctx.assume(z3.And(hi > lo, hi != 0))
+            a["threshold_high"] = Sym(hi)
+            a["__hi"] = hi
+        return a
+
+    @staticmethod
+    def local_contracts():
+        return {AddBracketSite.name: AddBracketSite()}
+
+    def _inv(self, ctx, I, vars):
+        rate = ctx.ghost["rate"]
+        s = vars["self"]
+        cur, nr = state_of(I, ctx, s)
+        i, j = B._z(vars["i"]), B._z(vars["j"])
+        if "cb_entry" not in ctx.ghost:
+            ctx.ghost["cb_entry"] = (cur, i, j, s.fields["thresholds"], s.fields["rates"], len(ctx.ghost.get("add_bracket_calls", [])))
+        E, i0, _, thl, rtl, _ = ctx.ghost["cb_entry"]
+        q, q2 = z3.Int(ctx.fresh_name("q_inv")), z3.Int(ctx.fresh_name("q2_inv"))
+        return [("same-list-objects", s.fields["thresholds"] is thl and s.fields["rates"] is rtl),
+                ("lists-keep-their-length", z3.And(cur.n == E.n, nr == E.n)),
+                ("thresholds-are-not-changed-by-the-loop", z3.ForAll([q], z3.Implies(z3.And(q >= 0, q < E.n), cur.T(q) == E.T(q)))),
+                ("thresholds-strictly-increasing", z3.ForAll([q, q2], z3.Implies(z3.And(0 <= q, q < q2, q2 < E.n), E.T(q) < E.T(q2)))),
+                ("cursor-in-range", z3.And(i0 >= 0, i0 <= i, i <= j + 1, j < E.n)),
+                ("rate-added-exactly-to-the-brackets-done",
+                 z3.ForAll([q], z3.Implies(z3.And(q >= 0, q < E.n), cur.R(q) == E.R(q) + z3.If(z3.And(i0 <= q, q < i), rate, 0))))]
+
+    def _havoc(self, ctx, I, vars):
+        E, i0, j, thl, rtl, _ = ctx.ghost["cb_entry"]
+        thl.seq = fresh_seq(ctx, "thresholds_h", E.n)[0]
+        rtl.seq = fresh_seq(ctx, "rates_h", E.n)[0]
+        vars["i"] = Sym(ctx.fresh_int("hv_i"))
+
+    @property
+    def loops(self):
+        ls = LoopSpec(self._inv, self._havoc)
+        ls.heap_frame = ("self.thresholds", "self.rates")
+        return {0: ls}
+
+    def post(self, I, ctx, a, out, old):
+        w, rate, lo, hi = a["__w"], a["__rate"], a["__lo"], a["__hi"]
+        if out[0] != "return" or "cb_entry" not in ctx.ghost:
+            return [("no-exception", False)]
+        fin, nr = state_of(I, ctx, w.scale)
+        E, i0, j, _, _, ncalls = ctx.ghost["cb_entry"]
+        calls = ctx.ghost.get("add_bracket_calls", [])[:ncalls]          # the insertions made before the loop
+        x = ctx.fresh_real("x")
+        k0, k2 = ctx.fresh_int("k_before"), ctx.fresh_int("k_after")
+        q, q2 = ctx.fresh_int("q"), ctx.fresh_int("q2")
+        inside = z3.And(lo <= x, x < hi) if hi is not None else lo <= x
+        add = z3.If(inside, rate, 0)
+        S0 = State(w.T, w.R, w.n)
+        res = [("as-many-rates-as-thresholds", nr == fin.n),
+               ("thresholds-stay-strictly-increasing", z3.Implies(z3.And(0 <= q, q < q2, q2 < fin.n), fin.T(q) < fin.T(q2))),
+               ("only-new-thresholds-are-inserted-before-the-rates-are-raised", all(not c["present"] for c in calls))]
+        # proof steps (each is proved, then available to the next ones): follow the point x through the insertions
+        hypA = in_bracket(S0.T, S0.n, x, k0)
+        hypB = below_first(S0.T, S0.n, x)
+        kA, inbB, kB = k0, z3.BoolVal(False), z3.IntVal(0)
+        prev = S0
+        for m, c in enumerate(calls):
+            kA2 = next_k(kA, c["p"], c["t"], x)
+            res.append((f"step{m + 1}.a-point-in-a-bracket-stays-in-a-bracket-of-the-same-rate",
+                        z3.Implies(hypA, z3.And(in_bracket(c["after"].T, c["after"].n, x, kA2), c["after"].R(kA2) == prev.R(kA)))))
+            inbB2 = z3.Or(inbB, x >= c["t"])
+            kB2 = z3.If(inbB, next_k(kB, c["p"], c["t"], x), z3.IntVal(0))
+            res.append((f"step{m + 1}.a-point-below-the-first-threshold-stays-below-or-enters-a-bracket-of-rate-zero",
+                        z3.Implies(hypB, z3.If(inbB2, z3.And(in_bracket(c["after"].T, c["after"].n, x, kB2), c["after"].R(kB2) == 0),
+                                               below_first(c["after"].T, c["after"].n, x)))))
+            kA, inbB, kB, prev = kA2, inbB2, kB2, c["after"]
+        # the loop raised exactly the brackets from low's position to the one before high's (the last one without high)
+        res.append(("low-is-where-the-loop-started", z3.And(i0 >= 0, i0 < fin.n, fin.T(i0) == lo)))
+        res.append(("high-is-where-the-loop-stopped", z3.And(j + 1 < fin.n, fin.T(j + 1) == hi, i0 <= j) if hi is not None else j == fin.n - 1))
+        res.append(("final-rates-are-the-rates-at-loop-entry-plus-the-rate-on-those-brackets",
+                    z3.Implies(z3.And(q >= 0, q < fin.n), z3.And(fin.T(q) == E.T(q), fin.R(q) == E.R(q) + z3.If(z3.And(i0 <= q, q <= j), rate, 0)))))
+        res.append(("a-point-is-in-a-raised-bracket-iff-it-is-in-the-range",
+                    z3.Implies(in_bracket(fin.T, fin.n, x, k2), z3.And(i0 <= k2, k2 <= j) == inside)))
+        res.append(("a-point-is-in-one-bracket-only", z3.Implies(z3.And(in_bracket(fin.T, fin.n, x, k2), in_bracket(fin.T, fin.n, x, q)), k2 == q)))
+        # the statement
+        res += [("a-point-in-a-bracket-before-or-in-the-range-is-in-a-bracket-after",
+                 z3.Implies(z3.Or(z3.Not(hypB), inside), z3.And(fin.n > 0, fin.T(0) <= x))),
+                ("rate-of-a-point-that-was-in-a-bracket",
+                 z3.Implies(z3.And(hypA, in_bracket(fin.T, fin.n, x, k2)), z3.And(k2 == kA, fin.R(k2) == w.R(k0) + add))),
+                ("rate-of-a-point-that-was-below-the-first-threshold",
+                 z3.Implies(z3.And(hypB, in_bracket(fin.T, fin.n, x, k2)), z3.And(inbB, k2 == kB, fin.R(k2) == add)))]
+        # the same as one equation between the marginal-rate functions of the scale before and after (the call-site form)
+        vB, vA = ctx.fresh_real("rho_before"), ctx.fresh_real("rho_after")
+        res.append(("marginal-rate-function-after-is-the-one-before-plus-the-rate-on-the-range",
+                    z3.Implies(z3.And(rho_at(S0, x, vB, k0), rho_at(fin, x, vA, k2)), vA == vB + add)))
+        return res
+
+    def probes(self, case):
+        out = []
+        for t, r in (([], []), ([10.0], [0.1]), ([0.0, 10.0, 20.0], [0.1, 0.2, 0.4])):
+            for lo in (0.0, 5.0, 10.0, 25.0):
+                for hi in ((None,) if case == "open" else (lo + 5.0, lo + 10.0, lo + 100.0)):
+                    out.append({"callee": self.name, "script": NATIVE, "op": "combine_bracket", "thresholds": t, "rates": r, "low": lo, "high": hi, "rate": 0.25})
+        return out
+
+    def judge_native(self, I, case, call, nat):
+        return judge(nat)
+
+
+NATIVE = "import sys; sys.path.insert(0, '/verif/native')\nimport c09_replay\noutcome = c09_replay.run(call)\n"
+
+
+def judge(nat):
+    if nat.get("kind") == "harness-error":
+        return "undecided", str(nat)[:300]
+    if nat["kind"] == "raise":
+        return "violates", "raised " + nat.get("exc", "") + ": " + nat.get("msg", "")
+    return ("satisfies", "law holds on the grid of bases") if nat["value"].get("ok") else ("violates", str(nat["value"])[:400])
+
+
 def part_of(T, n, b, k):
     upper = z3.If(k + 1 < n, z3.If(b <= T(k + 1), b, T(k + 1)), b)
     d = upper - T(k)
@@ -230,6 +729,29 @@ def scaled_summand_clause(I, ctx, w, r, f, q, b):
              z3.Implies(z3.And(q >= 0, q < w.n, B._z(st.length) == w.n),
                         el(sr, q) * part_of(T2, w.n, f * b, q) == f * (w.R(q) * part(w, b, q)))),
             ("thresholds-stay-strictly-increasing", z3.Implies(z3.And(0 <= q, q < q2, q2 < B._z(st.length)), T2(q) < T2(q2)))]
+
+
+def _grid(tier):
+    import itertools
+    ts = [0.0, 1.0, 2.5, 4.0, 10.0, 100.0]
+    rs = [0.0, 0.1, 0.25, 0.5]
+    out = []
+    for n in (1, 2, 3) if tier == "quick" else (1, 2, 3, 4):
+        for t in itertools.combinations(ts, n):
+            for r in list(itertools.product(rs, repeat=n))[:: (7 if tier == "quick" else 2)]:
+                out.append((list(t), list(r)))
+    return out
+
+
+NATIVE_STANDINS = [
+    {"name": "to_average().to_marginal() taxes every base like the original scale",
+     "where": "MarginalRateTaxScale.to_average / LinearAverageRateTaxScale.to_marginal",
+     "bound": "scales of 1 to 3 (thorough: 4) brackets over thresholds {0, 1, 2.5, 4, 10, 100} (first threshold zero or not) and rates "
+              "{0, .1, .25, .5}; bases: every threshold, +-0.5 around it, 0, 1, 1e6",
+     "calls": lambda tier: [{"callee": "to_average/to_marginal", "script": NATIVE, "op": "batch",
+                             "calls": [{"op": "average_round_trip", "thresholds": t, "rates": r} for t, r in _grid(tier)]}],
+     "judge": judge},
+]
 
 
 def lemmas(prop, timeout_ms):
@@ -252,6 +774,11 @@ def lemmas(prop, timeout_ms):
     L += [("sum-of-added-terms.base", [SF(0) == 0, SG(0) == 0, SH(0) == 0], SH(0) == SF(0) + SG(0)),
           ("sum-of-added-terms.step", [m >= 0, H(m) == F(m) + G(m), SF(m + 1) == SF(m) + F(m), SG(m + 1) == SG(m) + G(m),
                                         SH(m + 1) == SH(m) + H(m), SH(m) == SF(m) + SG(m)], SH(m + 1) == SF(m + 1) + SG(m + 1))]
+    # telescoping: the gross bracket widths below bracket k add up to T(k) - T(0)   (inverse: inverse.calc(net) = gross)
+    Tl = z3.Function("T_l", z3.IntSort(), z3.RealSort())
+    W = z3.Function("W_l", z3.IntSort(), z3.RealSort())
+    L += [("widths-telescope.base", [W(0) == 0], W(0) == Tl(0) - Tl(0)),
+          ("widths-telescope.step", [m >= 0, W(m + 1) == W(m) + (Tl(m + 1) - Tl(m)), W(m) == Tl(m) - Tl(0)], W(m + 1) == Tl(m + 1) - Tl(0))]
     for name, hyps, goal in L:
         verdict, backend, model, dt = smt.prove(hyps, goal, timeout_ms=timeout_ms)
         recs.append({"name": "lemma." + name, "where": "contracts/c09_transforms.py", "kind": "lemma", "verdict": verdict,
@@ -259,4 +786,4 @@ def lemmas(prop, timeout_ms):
     return recs
 
 
-CONTRACTS = [MultiplyRates(), MultiplyThresholds()]
+CONTRACTS = [MultiplyRates(), MultiplyThresholds(), Copy(), ScaleTaxScales(), CombineBracket(), AddTaxScale(), Inverse()]
